@@ -343,6 +343,11 @@ class SmtDagPrinter(DagWalker):
 
         # Deal with quantifiers
         if formula.is_quantifier():
+            # 0. A quantifier with several parents is on the stack
+            #    once per parent: it is printed the first time only
+            if self._get_key(formula, **kwargs) in self.memoization:
+                return
+
             # 1. We invoke the relevant function (walk_exists or
             #    walk_forall) to print the formula
             fun = self.functions[formula.node_type()]
